@@ -251,12 +251,20 @@ func (g *registry) prelude() string {
 		if f, err := strconv.ParseFloat(s, 64); err == nil && !math.IsNaN(f) {
 			pf = append(pf, fmt.Sprintf("(%s, Some %s)", plain.str(s), zlit(strconv.FormatUint(math.Float64bits(f), 10))))
 		}
+		// every string of the shard with what mysql.NullTime.Scan makes of it, failures included: the model's
+		// parse_datetime (Sql/TimeText.v) must agree on all of them (component 9)
 		if t, ok := parseTimeText(s); ok {
 			pt = append(pt, fmt.Sprintf("(%s, Some %s)", plain.str(s), zlit(tid(t))))
+		} else if n := len(s); n == 10 || (n >= 18 && n <= 28) || len(pt)%6 == 0 {
+			// rejected texts: all of a length near the accepted ones, a sample of the others (they fail the length test)
+			pt = append(pt, fmt.Sprintf("(%s, None)", plain.str(s)))
 		}
 	}
-	return "Definition E := env_of_tables\n " + vh.CoqList(ft) + "\n " + vh.CoqList(pf) + "\n " + vh.CoqList(tt) + "\n " + vh.CoqList(pt) +
-		".\nDefinition mm (_ : nat) cs := mismatches_sparse E cs.\n"
+	// times are concrete in the model (CodecTime.time_env): only the float tables enter the environment; the
+	// time tables computed by Go are compared with the model's own formatting / parsing
+	return "Definition FT := " + vh.CoqList(ft) + ".\nDefinition PF := " + vh.CoqList(pf) + ".\nDefinition TT := " + vh.CoqList(tt) +
+		".\nDefinition PT : list (string * option Z) := " + vh.CoqList(pt) +
+		".\nDefinition mm (o : nat) cs := mismatches_ct FT PF TT PT o cs.\n"
 }
 
 // ---------- Go values -> model terms ----------
@@ -689,6 +697,104 @@ func genTime(r *vh.Rng, hist func(string)) time.Time {
 	return base
 }
 
+// genTimeText draws a text a time column may be read from: what mysql.parseDateTime accepts (lengths 10, 19,
+// 21..26; a one-digit hour, several blanks, a comma before the fraction, up to nine digits of it, the zero
+// date) and what it rejects (other lengths, fields out of range, days the month does not have, trailing
+// text), as []byte or string.
+func genTimeText(r *vh.Rng, hist func(string)) interface{} {
+	year := []int{1971 + r.Intn(120), 0, 1, 999, 1000, 1600, 1900, 2000, 2024, 2100, 9999}[r.Intn(11)]
+	if r.Chance(60) {
+		year = 1971 + r.Intn(120)
+	}
+	mo, d := 1+r.Intn(12), 1+r.Intn(28)
+	hh, mi, ss := r.Intn(24), r.Intn(60), r.Intn(60)
+	kind := "plain"
+	switch r.Intn(12) {
+	case 0:
+		mo, kind = []int{0, 13, 19, 99}[r.Intn(4)], "month-out-of-range"
+	case 1:
+		d, kind = []int{0, 29, 30, 31, 32, 99}[r.Intn(6)], "day-edge"
+		if r.Chance(50) {
+			mo = []int{2, 4, 6, 9, 11, 12}[r.Intn(6)]
+		}
+	case 2:
+		hh, kind = []int{24, 25, 99}[r.Intn(3)], "hour-out-of-range"
+	case 3:
+		if r.Chance(50) {
+			mi = 60 + r.Intn(40)
+		} else {
+			ss = 60 + r.Intn(40)
+		}
+		kind = "minute-second-out-of-range"
+	case 4:
+		mo, d, kind = 2, 29, "feb-29"
+		if r.Chance(50) {
+			year = []int{1900, 2000, 2023, 2024, 2100, 2400, 0, 4, 100}[r.Intn(9)]
+		}
+	}
+	date := fmt.Sprintf("%04d-%02d-%02d", year, mo, d)
+	hour := fmt.Sprintf("%02d", hh)
+	sep := " "
+	frac := ""
+	switch r.Intn(10) {
+	case 0:
+		hour, kind = fmt.Sprintf("%d", hh), kind+"+short-hour"
+	case 1:
+		sep, kind = strings.Repeat(" ", 2+r.Intn(2)), kind+"+blanks"
+		if r.Chance(50) {
+			hour = fmt.Sprintf("%d", hh)
+		}
+	case 2:
+		sep, kind = []string{"T", "", "_", "  T"}[r.Intn(4)], kind+"+bad-separator"
+	}
+	if r.Chance(60) {
+		n := 1 + r.Intn(6)
+		if r.Chance(20) {
+			n = 7 + r.Intn(3)
+		}
+		digits := ""
+		for i := 0; i < n; i++ {
+			digits += string(rune('0' + r.Intn(10)))
+		}
+		dot := "."
+		if r.Chance(15) {
+			dot, kind = ",", kind+"+comma"
+		}
+		if r.Chance(5) {
+			digits = ""
+		}
+		frac = dot + digits
+	}
+	s := date + sep + hour + fmt.Sprintf(":%02d:%02d", mi, ss) + frac
+	switch r.Intn(14) {
+	case 0:
+		s, kind = date, kind+"+date-only"
+	case 1:
+		s, kind = s+[]string{"Z", " ", "x", "0", "+00:00"}[r.Intn(5)], kind+"+trailing"
+	case 2:
+		if len(s) > 3 {
+			s, kind = s[:len(s)-1-r.Intn(3)], kind+"+cut"
+		}
+	case 3:
+		zero := "0000-00-00 00:00:00.0000000"
+		s, kind = zero[:[]int{10, 19, 21, 23, 26, 27, 11, 20}[r.Intn(8)]], "zero-date"
+	case 4:
+		b := []byte(s)
+		b[r.Intn(len(b))] = "0123456789-: .x"[r.Intn(15)]
+		s, kind = string(b), kind+"+one-byte-changed"
+	}
+	hist("timetext:" + kind)
+	if _, ok := parseTimeText(s); ok {
+		hist("timetext:accepted")
+	} else {
+		hist("timetext:rejected")
+	}
+	if r.Chance(50) {
+		return []byte(s)
+	}
+	return s
+}
+
 func genValue(r *vh.Rng, t reflect.Type, implicitZero bool, hist func(string)) reflect.Value {
 	if t.Kind() == reflect.Ptr {
 		if r.Chance(30) {
@@ -1094,7 +1200,7 @@ func main() {
 		return
 	}
 	// Coq cases
-	const shard = 150
+	const shard = 100 // elaborating the terms dominates the evaluation: more, smaller files in parallel
 	for start := 0; start < len(all); start += shard {
 		end := start + shard
 		if end > len(all) {
@@ -1108,7 +1214,7 @@ func main() {
 			}
 		}
 		if len(terms) > 0 {
-			run.WriteCasesV(fmt.Sprintf("cases_%d.v", start), []string{"Sql.Codec"}, g.prelude(), "mm", 0, terms)
+			run.WriteCasesV(fmt.Sprintf("cases_%d.v", start), []string{"Sql.Codec", "Sql.CodecTime"}, g.prelude(), "mm", 0, terms)
 		}
 	}
 	run.Finish()
@@ -1203,7 +1309,11 @@ func runCase(run *vh.Run, schema *sqlgen.Schema, idx int, c Case) *obs {
 			d := ob.descs[i]
 			var s interface{}
 			var h *how
-			if malformed && r.Chance(35) {
+			if malformed && d.base == "BTime" && r.Chance(70) {
+				// a time column read from text: canonical forms, the forms time.Parse tolerates, and near misses
+				s = genTimeText(r, func(k string) { run.Hist(k) })
+				inDomain = false
+			} else if malformed && r.Chance(35) {
 				s = junkSrc[r.Intn(len(junkSrc))]
 				inDomain = false
 			} else {
